@@ -15,10 +15,11 @@ def sh(cmd, cwd=None):
 
 def main():
     a = sys.argv[1:]
-    seeds, checks, tier = [], None, "quick"
+    seeds, checks, tier, detected_only = [], None, "quick", False
     while a:
         if a[0] == "--checks": checks = a[1].split(","); a = a[2:]
         elif a[0] == "--tier": tier = a[1]; a = a[2:]
+        elif a[0] == "--detected-only": detected_only = True; a = a[1:]
         else: seeds.append(a[0]); a = a[1:]
     if seeds == ["all"]:
         seeds = sorted(d for d in os.listdir("/verif/seeded") if os.path.exists("/verif/seeded/%s/patch.diff" % d))
@@ -27,10 +28,19 @@ def main():
         d = "/verif/seeded/" + s
         meta = json.load(open(d + "/meta.json"))
         cs = checks or list(meta.get("checks_against_it", {}).keys()) or [s.split("-")[0]]
+        if detected_only and not checks:
+            prev = (meta.get("rechecked") or {}).get("detected_by") or meta.get("detected_by") or []
+            cs = prev or cs
         rc, out = sh("git diff --quiet", cwd="/repo")
         assert rc == 0, "/repo dirty"
         rc, out = sh("git apply %s/patch.diff" % d, cwd="/repo")
-        assert rc == 0, "patch does not apply: " + out
+        if rc != 0:
+            rc, out = sh("git apply -3 %s/patch.diff && git reset -q" % d, cwd="/repo")
+        if rc != 0:
+            sh("git checkout -- . ; git reset -q", cwd="/repo")
+            print(s, "PATCH-DOES-NOT-APPLY", out[-200:].replace("\n", " "), flush=True)
+            missed.append(s + " (patch does not apply)")
+            continue
         res = {}
         try:
             for c in cs:
